@@ -484,8 +484,10 @@ fn glyph_image<'a>(out: &mut GroupOut, p: &Prov<'a>, log: &RefCell<(BTreeSet<u32
 fn outlines(out: &mut GroupOut, p: &impl FontTableProvider) {
     let n = num_glyphs_of(p);
     let mut gids = probe_gids(n);
-    gids.extend([2u16, 3, 4, 5, 6, 7].iter().filter(|g| **g < n));
+    gids.extend([2u16, 3, 4, 5, 6, 7, n / 2].iter().filter(|g| **g < n));
     gids.extend((8..n).step_by((n as usize / 24).max(1)).take(24));
+    let mut seen = BTreeSet::new();
+    gids.retain(|g| seen.insert(*g));
     if has(out, p, tag::GLYF) {
         let head = match sub(out, || p.read_table_data(tag::HEAD).and_then(|d| ReadScope::new(&d).read::<HeadTable>())) {
             Some(h) => h,
@@ -557,6 +559,9 @@ fn tuples_of(p: &impl FontTableProvider) -> Vec<allsorts::tables::variable_fonts
 fn id_lists(n: u16) -> Vec<Vec<u16>> {
     let mut v = vec![vec![0u16], vec![0, 1, 2], vec![0, n.wrapping_sub(1)], vec![0, n], vec![0, 65535], vec![1, 2], vec![0, 2, 2]];
     v.push((0..n.min(40)).collect());
+    if n > 4 {
+        v.push(vec![0, n / 2]);
+    }
     v
 }
 
